@@ -13,7 +13,7 @@ INFO = {
                "variant carrying an io::Error; read_input returns before consulting the policy); Reader::next marks "
                "end of input only when the byte source is exhausted and propagates a failed read; bytes are pulled "
                "only through std::io::Bytes and written only through write_fmt/write_all (which retry Interrupted "
-               "and short writes); Master::go flushes the output with error propagation. Results handed to a local function are followed into it (an error mapped to Ok there is reported); both sinks write every row before process() returns.",
+               "and short writes); Master::go flushes the output with error propagation. Results handed to a local function are followed into it (an error mapped to Ok there is reported); both sinks write every row before process() returns. No io::Error is constructed in the crate.",
     "not_decided": "The prefix property of partial output (an ordering of run-time writes) and the behaviour of the "
                    "operating system.",
     "trusted": ["std: io::Bytes::next retries ErrorKind::Interrupted; Write::write_fmt/write_all retry Interrupted "
